@@ -67,22 +67,22 @@ void h_term_read_cmd(void)
 	int pos0 = ibuf_pos, cnt0 = ibuf_cnt, cmd0 = icmd_pos;
 	unsigned char next = pos0 < 4096 ? (unsigned char) ibuf[pos0] : 0;
 	int c = term_read();
-	__CPROVER_assert(Q_OK, "term_read: queue and record indices stay inside their 4096-byte buffers");
+	H_ASSERT(Q_OK, "term_read: queue and record indices stay inside their 4096-byte buffers");
 	if (pos0 < cnt0) {
 		/* pushed-back keys are returned first-in first-out, before the terminal is read */
-		__CPROVER_assert(c == next && ibuf_pos == pos0 + 1 && ibuf_cnt == cnt0, "term_read: the next queued key is returned");
-		__CPROVER_assert(g_poll_calls == 0 && g_read_calls == 0, "term_read: the terminal is not read while queued keys remain");
+		H_ASSERT(c == next && ibuf_pos == pos0 + 1 && ibuf_cnt == cnt0, "term_read: the next queued key is returned");
+		H_ASSERT(g_poll_calls == 0 && g_read_calls == 0, "term_read: the terminal is not read while queued keys remain");
 	} else if (c >= 0) {
-		__CPROVER_assert(g_read_calls == 1 && c == (unsigned char) g_tread_byte, "term_read: an empty queue reads one key from the terminal");
+		H_ASSERT(g_read_calls == 1 && c == (unsigned char) g_tread_byte, "term_read: an empty queue reads one key from the terminal");
 	}
 	/* every key read is recorded (until the record is full) */
 	if (cmd0 < 4096 && (pos0 < cnt0 || c >= 0))
-		__CPROVER_assert(icmd_pos == cmd0 + 1 && (unsigned char) icmd[cmd0] == (unsigned char) c, "term_read: the key returned is appended to the record");
+		H_ASSERT(icmd_pos == cmd0 + 1 && (unsigned char) icmd[cmd0] == (unsigned char) c, "term_read: the key returned is appended to the record");
 	if (cmd0 == 4096)
-		__CPROVER_assert(icmd_pos == 4096, "term_read: a full record is not overrun");
+		H_ASSERT(icmd_pos == 4096, "term_read: a full record is not overrun");
 	int rec = icmd_pos;
 	char *r = term_cmd(&n);
-	__CPROVER_assert(r == icmd && n == rec && icmd_pos == 0, "term_cmd: returns the keys read since the previous call and cuts the record");
+	H_ASSERT(r == icmd && n == rec && icmd_pos == 0, "term_cmd: returns the keys read since the previous call and cuts the record");
 #ifdef CANARY
 	__CPROVER_assert(0, "canary");
 #endif
